@@ -67,7 +67,20 @@ def cases(tier, seed):
                         for axis in (0, 1, 2):
                             out.append({"law": law, "compliance": form, "sub": "revolute", "pair": pair, "angle0": a0, "axis": axis, "reg": reg, "vel": vel, "seed": seed})
     # simplest first: rest, documented registration, then the rest (stable sort)
-    out.sort(key=lambda c: (c["vel"] != "rest", REGS.index(c["reg"]), c["sub"] != "tpi"))
+    # multi-step history: the subsystem is assembled first, the system is re-initialised in another configuration
+    # (set_new_initial_state) and only then the force law is attached: the default reference must be taken
+    # from the configuration that is initial NOW
+    for law, form in LAWS:
+        for pair in TPI_PAIRS:
+            if pair.split("-")[1] not in ("PM", "RB"):
+                continue
+            out.append({"law": law, "compliance": form, "sub": "tpi", "pair": pair, "dist": DISTS[1], "reg": "law_after_reinit", "vel": "rest", "seed": seed})
+        for pair in REV_PAIRS:
+            for a0 in ANGLE0[:2]:
+                for axis in (0, 1, 2):
+                    out.append({"law": law, "compliance": form, "sub": "revolute", "pair": pair, "angle0": a0, "axis": axis, "reg": "law_after_reinit", "vel": "rest", "seed": seed})
+    order = REGS + ["law_after_reinit"]
+    out.sort(key=lambda c: (c["vel"] != "rest", order.index(c["reg"]), c["sub"] != "tpi"))
     return out
 
 
@@ -168,6 +181,32 @@ def _build(case, explicit):
         law = MaxwellElement(sub, 11.0, 0.7, l_ref=l_ref, q0=np.zeros(1))
 
     items = list(bodies)
+    if case["reg"] == "law_after_reinit":
+        system.add(*(items + [sub]))
+        J.assemble(system)
+        q = np.array(system.q0, float).copy()
+        qd = s2.qDOF
+        if case["sub"] == "tpi":
+            shift = 0.2
+            q[qd[:3]] = q[qd[:3]] + shift * n
+            l_expected = d + shift
+        else:
+            delta = 0.4
+            axI = A_IJ0[:, axis]
+            qR = ab.axis_angle_quat(axI, delta)
+            R = ab.quat_to_A(qR)
+            q[qd[:3]] = r_OJ0 + R @ (q[qd[:3]] - r_OJ0)
+            q[qd[3:7]] = ab.quat_mul(qR, q[qd[3:7]])
+            l_expected = case["angle0"] + delta
+        from vp.core.quiet import quiet
+
+        with quiet():
+            system.set_new_initial_state(q, np.array(system.u0, float).copy())
+        if l_ref is not None:
+            law.l_ref = l_expected
+        system.add(law)
+        J.assemble(system)
+        return system, law, sub, l_expected, has_moving_frame
     if case["reg"] == "sub_before_law":
         items += [sub, law]
     elif case["reg"] == "sub_after_law":
